@@ -268,7 +268,10 @@ func (check *Checker) missingMethod(V Type, T *Interface, static bool) (method *
 
 	if len(T.allMethods) != 0 {
 		if _, ok := V.(*Pointer); !ok {
-			return T.allMethods[0], false
+			// 接口类型的值由下面的分支按方法集判断
+			if _, isIface := V.Underlying().(*Interface); !isIface {
+				return T.allMethods[0], false
+			}
 		}
 	}
 
